@@ -28,3 +28,6 @@ Definition gen_cal_levenshtein (hamming levenshtein : str -> str -> nat) (seqs :
   let choices := filter (fun y_ => negb (Nat.eqb y_ i)) y_indices in
   let result := rf_extract scorer (nth i seqs []) (map (fun c_ => nth c_ seqs []) choices) max_edits limit in
   fold_left (fun ans r_ => ans ++ [(i, nth (snd r_) choices 0, snd (fst r_))]) result [].
+
+(* _to_triplets: is the custom-distance worker chosen for custom_distance = None / 'hamming' / a callable? *)
+Definition gen_worker_is_custom : bool * bool * bool := (false, false, true).
